@@ -374,4 +374,136 @@ Proof.
   exact (Hz t n c Ht Et).
 Qed.
 
+(* ------------------------------------------------------------ the REPAIRED substitution (fix FIXHASH_EQ) *)
+(* full_subs f ep = union_subs ep extended by  child name := 1  for every parameter of the child that no
+   parent parameter is mapped to.  No cover condition is left: a dictionary that maps parameters of the
+   parent to parameters of the child is enough. *)
+Record child_wfd (ppars : list Z) (pars : Z -> list Z) (k : Z * list (Z * Z)) : Prop := {
+  cd_keys : NoDup (map fst (snd k));                       (* a dict *)
+  cd_dom : incl (map fst (snd k)) ppars;                   (* keys are parent parameters *)
+  cd_ran : incl (map snd (snd k)) (pars (fst k));          (* values are child parameters *)
+  cd_nodup : NoDup (pars (fst k));
+  cd_x : ~ In 0 (pars (fst k));
+  cd_tab : forall t, In t (S (fst k)) ->
+           exists n c, fst t = n :: c /\ length c = length (pars (fst k))
+}.
+
+Lemma child_wf_wfd ppars pars k : child_wf ppars pars k -> child_wfd ppars pars k.
+Proof. intros W. constructor; apply W. Qed.
+
+Lemma fix_fold_keep cv e args : forall sg,
+  alookup cv sg = Some e -> alookup cv (fold_left fix_step args sg) = Some e.
+Proof.
+  induction args as [|a t IH]; intros sg H; simpl; auto.
+  apply IH. destruct a; simpl; auto.
+  destruct (alookup v sg) eqn:E; auto.
+  rewrite alookup_app, H. reflexivity.
+Qed.
+
+Lemma fix_fold_vars cv (l : list Z) : forall sg,
+  alookup cv sg = None ->
+  alookup cv (fold_left fix_step (map Var l) sg) = if in_dec Z.eq_dec cv l then Some (Const 1) else None.
+Proof.
+  induction l as [|v t IH]; intros sg H; simpl; auto.
+  destruct (alookup v sg) eqn:E.
+  - destruct (Z.eq_dec v cv) as [->|Hne]; [congruence|].
+    rewrite IH by auto. destruct (in_dec Z.eq_dec cv t); reflexivity.
+  - destruct (Z.eq_dec v cv) as [->|Hne].
+    + rewrite (fix_fold_keep cv (Const 1)); [reflexivity|].
+      rewrite alookup_app, H. simpl. rewrite Z.eqb_refl. reflexivity.
+    + rewrite IH.
+      * destruct (in_dec Z.eq_dec cv t); reflexivity.
+      * rewrite alookup_app, H. simpl. destruct (Z.eqb_spec v cv); [congruence|reflexivity].
+Qed.
+
+Lemma full_subs_cfun pars c ep :
+  full_subs (cfun pars c) ep = fold_left fix_step (map Var (pars c)) (union_subs ep).
+Proof. reflexivity. Qed.
+
+Lemma child_args_full ppars pars k :
+  child_wfd ppars pars k ->
+  exists ms, amonos (map (subs (full_subs (cfun pars (fst k)) (snd k))) (Var 0 :: map Var (pars (fst k)))) =
+               Some (mvar 0 :: ms) /\
+             Forall2 (fun (m : mono) cv => forall u, m u = par_count (snd k) cv u) ms (pars (fst k)).
+Proof.
+  intros W. destruct k as [c ep]. cbn [fst snd] in *. rewrite full_subs_cfun.
+  pose proof (good_union_subs ep) as G.
+  set (sg := fold_left fix_step (map Var (pars c)) (union_subs ep)).
+  assert (alookup 0 (union_subs ep) = None) as E0.
+  { pose proof (G 0) as G0. destruct (alookup 0 (union_subs ep)); auto.
+    destruct G0 as [Hp _]. exfalso. apply (cd_x _ _ _ W). apply (cd_ran _ _ _ W). simpl.
+    unfold has_par in Hp. apply existsb_exists in Hp. destruct Hp as [[q c'] [Hin Hc]]. simpl in Hc.
+    apply Z.eqb_eq in Hc. subst. apply in_map_iff. exists (q, 0). auto. }
+  assert (alookup 0 sg = None) as E0'.
+  { unfold sg. rewrite fix_fold_vars by auto.
+    destruct (in_dec Z.eq_dec 0 (pars c)) as [Hin|]; [|reflexivity]. exfalso. apply (cd_x _ _ _ W). exact Hin. }
+  assert (forall l, incl l (pars c) ->
+            exists ms, amonos (map (subs sg) (map Var l)) = Some ms /\
+                       Forall2 (fun (m : mono) cv => forall u, m u = par_count ep cv u) ms l) as A.
+  { induction l as [|cv t IH]; intros Hl.
+    - exists []. split; [reflexivity|constructor].
+    - destruct IH as [ms [Hms HF]]; [intros z Hz; apply Hl; right; auto|].
+      pose proof (G cv) as Gcv. simpl.
+      destruct (alookup cv (union_subs ep)) as [e|] eqn:Ecv.
+      + destruct Gcv as [_ [f [Hf Hfu]]].
+        unfold sg at 1. rewrite (fix_fold_keep cv e _ _ Ecv). fold sg. rewrite Hf, Hms.
+        exists (f :: ms). split; auto.
+      + unfold sg at 1. rewrite (fix_fold_vars cv (pars c) _ Ecv). fold sg.
+        destruct (in_dec Z.eq_dec cv (pars c)) as [_|Hn]; [|exfalso; apply Hn, Hl; left; auto].
+        simpl. rewrite Hms. exists (mzero :: ms). split; auto. constructor; auto.
+        intros u. rewrite (par_count_no_par ep cv u Gcv). reflexivity. }
+  destruct (A (pars c) (incl_refl _)) as [ms [Hms HF]].
+  exists ms. split; auto. simpl. rewrite E0'. simpl. simpl in Hms. rewrite Hms. reflexivity.
+Qed.
+
+(* substituting  child variable := product of its parent variables (1 if it has none)  turns the child's
+   monomial into the monomial of the re-keyed entry: unmapped components are summed out *)
+Lemma child_mono_full ppars pars k ms n c u :
+  child_wfd ppars pars k -> NoDup ppars -> ~ In 0 ppars ->
+  Forall2 (fun (m : mono) cv => forall u, m u = par_count (snd k) cv u) ms (pars (fst k)) ->
+  length c = length (pars (fst k)) ->
+  lincomb (n :: c) (mvar 0 :: ms) u = fm ppars (n :: rk ppars (pars (fst k)) (snd k) c) u.
+Proof.
+  intros W NDp H0p HF Hlen. destruct k as [cl ep]. simpl in *.
+  rewrite fm_value by auto. rewrite lincomb_cons.
+  assert (lincomb c ms u = lincomb c (map (fun cv => (fun w => par_count ep cv w) : mono) (pars cl)) u) as E1.
+  { apply lincomb_ext. clear Hlen. induction HF as [|m cv ms' l' Hm _ IH]; simpl; constructor; auto. }
+  rewrite E1, lincomb_map_ind. clear E1.
+  unfold rk. rewrite aget_combine_map.
+  unfold mvar. destruct (Z.eqb_spec u 0) as [->|Hu0].
+  - rewrite psum_zero; [lia|]. intros [v cv] _. simpl.
+    rewrite par_count_no_key; [lia|]. intros Hin. apply H0p. apply (cd_dom _ _ _ W). exact Hin.
+  - rewrite Z.mul_0_r, Z.add_0_l.
+    transitivity (psum (fun vk : Z * Z => fst vk *
+                    match alookup u ep with Some c' => if c' =? snd vk then 1 else 0 | None => 0 end)
+                    (combine c (pars cl))).
+    { apply psum_ext. intros [v cv] _. simpl. rewrite (par_count_lookup ep cv u (cd_keys _ _ _ W)). reflexivity. }
+    destruct (alookup u ep) as [c'|] eqn:El.
+    + destruct (in_dec Z.eq_dec u ppars) as [Hin|Hnin].
+      * rewrite <- (psum_select_nodup (pars cl) c c') by (apply (cd_nodup _ _ _ W)).
+        apply psum_ext. intros [v cv] _. simpl. rewrite (Z.eqb_sym c' cv). destruct (cv =? c'); lia.
+      * exfalso. apply Hnin. apply (cd_dom _ _ _ W). apply alookup_in in El.
+        apply in_map_iff. exists (u, c'). auto.
+    + rewrite psum_zero; [destruct (in_dec Z.eq_dec u ppars); reflexivity|].
+      intros [v cv] _. simpl. lia.
+Qed.
+
+(* the series denoted by a child's function under the repaired substitution *)
+Lemma sem_child_full ppars pars k V :
+  child_wfd ppars pars k -> NoDup ppars -> ~ In 0 ppars ->
+  exists P, sem S O (subs (full_subs (cfun pars (fst k)) (snd k)) (cfun pars (fst k))) = Some P /\
+            peqv V P (cser ppars (rekey ppars (pars (fst k)) (snd k) (S (fst k)))).
+Proof.
+  intros W NDp H0p. destruct (child_args_full ppars pars k W) as [ms [Hms HF]].
+  unfold cfun at 2. cbn [subs]. cbn [sem]. rewrite Hms.
+  eexists. split; [reflexivity|].
+  intros m. unfold cser, rekey. rewrite map_map. cbn [fst snd].
+  apply (pcoef_map_ext V
+           (fun t => lincomb (fst t) (mvar 0 :: ms))
+           (fun t => fm ppars (hd 0 (fst t) :: rk ppars (pars (fst k)) (snd k) (tl (fst t))))
+           snd (S (fst k)) m).
+  intros t Ht u _. destruct (cd_tab _ _ _ W t Ht) as [n [c [Et Hl]]]. rewrite Et. cbn [hd tl].
+  apply child_mono_full; auto.
+Qed.
+
 End Subst.
